@@ -15,7 +15,7 @@ import os
 import sys
 from pathlib import Path
 
-from harness.py2coq import B, OBJ, OPT, PREAMBLE, Q, S, TUP, Z, Translator, Untranslatable, find_def
+from harness.py2coq import B, LIST, OBJ, OPT, PREAMBLE, Q, S, TUP, Z, Translator, Untranslatable, find_def
 
 VERIF = Path(__file__).resolve().parent.parent
 COQ = Path(os.environ.get('VERIF_COQ_DIR') or VERIF / 'coq')
@@ -33,6 +33,8 @@ CLASSES = {
     'CircularAperture': {'fields': [('r', Q)]},
     'CircularAnnulus': {'fields': [('r_out', Q)]},
     'ApertureStats': {'fields': [('bbox_xmin', Z), ('bbox_ymin', Z)]},
+    'ProfileBase': {'fields': [('normalization_value', Q), ('profile', Q), ('profile_error', Q)]},
+    'SourceCatalog': {'fields': [('isscalar', B)]},
     'StarFinderKernel': {'fields': [('yradius', Z), ('xradius', Z)], 'pytypes': ['_StarFinderKernel']},
 }
 
@@ -181,18 +183,141 @@ TARGETS += [
          name='gen_centroid_origin', sorts={}, elementwise=True),
 ]
 
+SL2 = TUP(TUP(Z, Z), TUP(Z, Z))        # a pair of slices (y, x), each slice(start, stop)
+IMAGES = 'photutils/datasets/images.py'
+TARGETS += [
+    # ---- Gen_render.v (C18) ----
+    # photutils' wrapper of astropy's overlap_slices: the zero-size-slice patch.  The astropy call itself is a
+    # declared abstract argument (its result: (slices_large, slices_small)).
+    dict(gen='Gen_render', file='photutils/utils/cutouts.py', qual='_overlap_slices', name='gen_overlap_slices_patch',
+         sorts={'large_array_shape': None, 'small_array_shape': None, 'position': None, 'mode': None},
+         abstract={'overlap_slices(large_array_shape, small_array_shape, position, mode=mode)': ('astropy', TUP(SL2, SL2))}),
+    # which model shape a source is rendered with (images.py, loop body of make_model_image)
+    dict(gen='Gen_render', kind='block', file=IMAGES, qual='make_model_image', name='gen_mod_shape',
+         vars=['mod_shape'], ret=['mod_shape'],
+         sorts={'variable_shape': B, 'model_shape': OPT(TUP(Z, Z))},
+         abstract={'model_shape[i]': ('row_shape', TUP(Z, Z)),
+                   '_model_shape_from_bbox(model, bbox_factor=bbox_factor)': ('bbox_shape', TUP(Z, Z))}),
+    dict(gen='Gen_render', kind='ret', file=IMAGES, qual='_model_shape_from_bbox', name='gen_shape_from_bbox',
+         occurrence=0, sorts={'bbox': TUP(TUP(Q, Q), TUP(Q, Q))}, elementwise=True),
+    dict(gen='Gen_render', kind='block', file=IMAGES, qual='make_model_image', name='gen_discretize_ranges',
+         vars=['x_range', 'y_range'], ret=['x_range', 'y_range'], sorts={'slc_lg': SL2}),
+]
+
+PROF = 'photutils/profiles/core.py'
+NV, DP, DE = 'self.normalization_value', "self.__dict__['profile']", "self.__dict__['profile_error']"
+TARGETS += [
+    # ---- Gen_profiles.v (C19) ----
+    dict(gen='Gen_profiles', kind='test', file=PROF, qual='ProfileBase.normalize', name='gen_normalize_skipped',
+         reads='normalization', sorts={'normalization': Q}),
+    dict(gen='Gen_profiles', kind='block', file=PROF, qual='ProfileBase.normalize', name='gen_normalize_apply',
+         vars=[NV, DP, DE], ret=[NV, DP, DE], cells={NV: Q, DP: Q, DE: Q}, sorts={NV: Q, 'normalization': Q},
+         elementwise=True),
+    dict(gen='Gen_profiles', kind='block', file=PROF, qual='ProfileBase.unnormalize', name='gen_unnormalize',
+         vars=[NV, DP, DE], ret=[NV, DP, DE], cells={NV: Q, DP: Q, DE: Q}, sorts={NV: Q}, elementwise=True),
+    dict(gen='Gen_profiles', kind='test', file=PROF, qual='ProfileBase._circular_apertures',
+         name='gen_radius_has_no_aperture', reads='radius', sorts={'radius': Q}),
+    dict(gen='Gen_profiles', kind='block', file=PROF, qual='ProfileBase._photometry', name='gen_photometry_one',
+         vars=['flux', 'fluxerr', 'area'], ret=['flux', 'fluxerr', 'area'], sorts={'aperture': OPT(Z)},
+         abstract={'aperture.do_photometry(self.data, error=self.error, mask=self.mask, method=self.method, '
+                   'subpixels=self.subpixels)': ('phot', TUP(LIST(Q), LIST(Q))),
+                   'aperture.area_overlap(self.data, mask=self.mask, method=self.method, subpixels=self.subpixels)':
+                   ('area_overlap', Q)}),
+    dict(gen='Gen_profiles', file='photutils/profiles/radial_profile.py', qual='RadialProfile.profile',
+         name='gen_radial_profile_elem', sorts=[], elementwise=True, self_fields=[('_flux', Q), ('area', Q)]),
+    dict(gen='Gen_profiles', file='photutils/profiles/radial_profile.py', qual='RadialProfile.profile_error',
+         name='gen_radial_profile_error_elem', sorts=[], elementwise=True,
+         self_fields=[('_fluxerr', Q), ('area', Q), ('error', OPT(Z))]),
+]
+
+DEBLEND = 'photutils/segmentation/deblend.py'
+TARGETS += [
+    # ---- Gen_deblend.v (C06): the argument guards, the 2*npixels selection, the label bookkeeping ----
+    dict(gen='Gen_deblend', kind='test', file=DEBLEND, qual='deblend_sources', name='gen_nlevels_invalid',
+         reads='nlevels', occurrence=0, sorts={'nlevels': Z}),
+    dict(gen='Gen_deblend', kind='test', file=DEBLEND, qual='deblend_sources', name='gen_contrast_invalid',
+         reads='contrast', occurrence=0, sorts={'contrast': Q}),
+    dict(gen='Gen_deblend', kind='test', file=DEBLEND, qual='deblend_sources', name='gen_contrast_no_deblending',
+         reads='contrast', occurrence=1, sorts={'contrast': Q}),
+    dict(gen='Gen_deblend', kind='test', file=DEBLEND, qual='deblend_sources', name='gen_mode_invalid',
+         reads='mode', occurrence=0, sorts={'mode': S}),
+    dict(gen='Gen_deblend', kind='block', vars=['mask'], ret=['mask'], file=DEBLEND, qual='deblend_sources',
+         name='gen_label_selected', sorts={'npixels': Z}, elementwise=True,
+         abstract={'segment_img.areas[segment_img.get_indices(labels)]': ('area', Z)}),
+    dict(gen='Gen_deblend', kind='block', file=DEBLEND, qual='deblend_sources', name='gen_max_label_serial',
+         vars=['max_label'], ret=['max_label'], occurrences=[1], sorts={'max_label': Z},
+         abstract={'len(new_labels)': ('n_new', Z)}),
+    dict(gen='Gen_deblend', kind='block', file=DEBLEND, qual='deblend_sources', name='gen_max_label_parallel',
+         vars=['max_label'], ret=['max_label'], occurrences=[2], sorts={'max_label': Z},
+         abstract={'len(new_labels)': ('n_new', Z)}),
+    dict(gen='Gen_deblend', kind='test', file=DEBLEND, qual='deblend_sources', name='gen_labels_overflow',
+         reads='np.iinfo(segm_deblended.dtype).max', sorts={'max_label': Z},
+         abstract={'np.iinfo(segm_deblended.dtype).max': ('dtype_max', Z)}),
+    dict(gen='Gen_deblend', kind='test', file=DEBLEND, qual='_create_relabel_map', name='gen_relabel_no_labels',
+         reads='labels', occurrence=0, sorts={}, abstract={'len(labels)': ('n', Z)}),
+    dict(gen='Gen_deblend', kind='test', file=DEBLEND, qual='_create_relabel_map', name='gen_relabel_consecutive',
+         reads='labels', occurrence=1, sorts={'start_label': Z},
+         abstract={'len(labels)': ('n', Z), 'labels[0]': ('first', Z), 'labels[-1]': ('last', Z)}),
+    dict(gen='Gen_deblend', kind='test', file=DEBLEND, qual='_SingleSourceDeblender.deblend_source',
+         name='gen_single_marker', reads='len(_get_labels(markers)) == 1', sorts={},
+         abstract={'len(_get_labels(markers))': ('n', Z)}),
+]
+
+CATALOG = 'photutils/segmentation/catalog.py'
+TARGETS += [
+    # ---- Gen_catindex.v (C08): the decision structure of SourceCatalog.__getitem__ ----
+    dict(gen='Gen_catindex', kind='test', file=CATALOG, qual='SourceCatalog.__getitem__', name='gen_getitem_rejects_scalar',
+         reads='self.isscalar', sorts={}),
+    # keys = set(__dict__) & (set(_lazyproperties) | set(_extra_properties)), read as the membership predicate of one
+    # key: each set(...) is a declared abstract bool "the key is in that set"; & and | on sets are and / or of memberships
+    dict(gen='Gen_catindex', kind='block', file=CATALOG, qual='SourceCatalog.__getitem__', name='gen_getitem_key_copied',
+         vars=['keys'], ret=['keys'], sorts={},
+         abstract={'set(self.__dict__.keys())': ('in_dict', B), 'set(self._lazyproperties)': ('in_lazy', B),
+                   'set(self._extra_properties)': ('in_extras', B)}),
+    # which of the three indexing forms a cached value gets; the forms themselves are abstract tokens
+    dict(gen='Gen_catindex', kind='block', file=CATALOG, qual='SourceCatalog.__getitem__', name='gen_getitem_value_form',
+         vars=['val'], ret=['val'], occurrences=[0, 1, 2], sorts={'newcls': OBJ('SourceCatalog')},
+         abstract={"key.startswith('_')": ('key_private', B), 'isinstance(value, np.ndarray)': ('value_is_ndarray', B),
+                   'value[:, np.newaxis][index]': ('form_newaxis', Z), '[value[index]]': ('form_list', Z),
+                   'value[index]': ('form_plain', Z)}),
+]
+
+TARGETS += [
+    # ---- Gen_catalog.v (C07): per-source index arithmetic of SourceCatalog (the decorators as_scalar / use_detcat
+    #      are declared transparent for the value of ONE source) ----
+    dict(gen='Gen_catalog', kind='block', file=CATALOG, qual='SourceCatalog.cutout_centroid', name='gen_cutout_centroid',
+         vars=['ycentroid', 'xcentroid'], ret=['xcentroid', 'ycentroid'], sorts={}, elementwise=True,
+         abstract={'moments[:, 1, 0]': ('m10', Z), 'moments[:, 0, 1]': ('m01', Z), 'moments[:, 0, 0]': ('m00', Z)}),
+    dict(gen='Gen_catalog', kind='ret', occurrence=0, file=CATALOG, qual='SourceCatalog.cutout_centroid',
+         name='gen_cutout_centroid_pair', sorts={'xcentroid': Q, 'ycentroid': Q}, elementwise=True),
+    dict(gen='Gen_catalog', file=CATALOG, qual='SourceCatalog.centroid', name='gen_centroid', sorts=[], elementwise=True,
+         decorators_ok=['use_detcat', 'as_scalar'],
+         self_fields=[('bbox_xmin', Z), ('bbox_ymin', Z), ('cutout_centroid', TUP(Q, Q))], vec=['self.cutout_centroid']),
+    dict(gen='Gen_catalog', kind='ret', append='out', occurrence=0, file=CATALOG, qual='SourceCatalog.minval_index',
+         name='gen_minval_index', sorts={'idx': TUP(Z, Z), 'slc': SL2}),
+    dict(gen='Gen_catalog', kind='ret', append='out', occurrence=0, file=CATALOG, qual='SourceCatalog.maxval_index',
+         name='gen_maxval_index', sorts={'idx': TUP(Z, Z), 'slc': SL2}),
+    dict(gen='Gen_catalog', kind='block', file=CATALOG, qual='SourceCatalog._covariance', name='gen_covariance_delta',
+         vars=['delta', 'delta2'], ret=['delta', 'delta2'], sorts={}),
+]
+
 # which generated files (in build order) + GenEq file each property's harness adds to its FILES
 PROPERTY_FILES = {
     'C01': (['Gen_bbox', 'Gen_apcore', 'Gen_apshape'], ['C01_GenEq.v', 'C01_Shape_GenEq.v']),
     'C02': (['Gen_bbox'], ['C02_GenEq.v']),
     'C04': (['Gen_detect'], ['C04_GenEq.v']),
     'C05': (['Gen_segm'], ['C05_GenEq.v']),
+    'C06': (['Gen_deblend'], ['C06_GenEq.v']),
+    'C07': (['Gen_catalog'], ['C07_GenEq.v']),
+    'C08': (['Gen_catindex'], ['C08_GenEq.v']),
     'C11': (['Gen_bkg'], ['C11_GenEq.v']),
     'C12': (['Gen_psfphot'], ['C12_GenEq.v']),
     'C13': (['Gen_psf'], ['C13_GenEq.v']),
     'C14': (['Gen_detection'], ['C14_GenEq.v']),
     'C16': (['Gen_bbox', 'Gen_apstats'], ['C16_GenEq.v']),
     'C17': (['Gen_round'], ['C17_GenEq.v']),
+    'C18': (['Gen_render'], ['C18_GenEq.v']),
+    'C19': (['Gen_profiles'], ['C19_GenEq.v']),
     'C20': (['Gen_isophote'], ['C20_GenEq.v']),
 }
 
@@ -224,6 +349,10 @@ def translate_target(t, registry, cache):
         return tr.stmt_block(fdef, lines, t['name'], cls, t['sorts'], fields=t.get('fields'), vars=t.get('vars', ()),
                              ret=t.get('ret'), occurrences=t.get('occurrences'), cells=t.get('cells'),
                              abstract=t.get('abstract'), vec=t.get('vec', ()), write=t.get('write')), cls
+    if t.get('kind') == 'ret':
+        return tr.ret_expr(fdef, lines, t['name'], cls, t['sorts'], fields=t.get('fields'),
+                           occurrence=t.get('occurrence', 0), append=t.get('append'), abstract=t.get('abstract'),
+                           vec=t.get('vec', ())), cls
     if t.get('kind') == 'test':
         return tr.if_test(fdef, lines, t['name'], cls, t['sorts'], fields=t.get('fields'), reads=t['reads'],
                           occurrence=t.get('occurrence'), abstract=t.get('abstract'), vec=t.get('vec', ())), cls
@@ -240,7 +369,8 @@ def translate_target(t, registry, cache):
         fn = tr.function(fdef2, lines, t['name'], None, t['sorts'], abstract=t.get('abstract'), vec=t.get('vec', ()))
         fn.kind = 'function'
         return fn, None
-    return tr.function(fdef, lines, t['name'], cls, t['sorts'], abstract=t.get('abstract'), vec=t.get('vec', ())), cls
+    return tr.function(fdef, lines, t['name'], cls, t['sorts'], abstract=t.get('abstract'), vec=t.get('vec', ()),
+                       decorators_ok=t.get('decorators_ok', ())), cls
 
 
 def generate_all():
@@ -275,6 +405,14 @@ def generated_for(pid):
     allg = generate_all()
     gen = {f'gen/{g}.v': allg[f'gen/{g}.v'] for g in gens}
     return gen, ['lib/PyGen.v'] + [f'gen/{g}.v' for g in gens] + eqs
+
+
+def untranslatable_for(pid):
+    """[(target name, message)] of the targets of property `pid` that could not be translated by the last
+    generate_all() / generated_for() call -- for a `translator:<target>` report; their definitions are absent
+    from the generated files, so the GenEq file of the property does not build either."""
+    gens, _ = PROPERTY_FILES[pid]
+    return [(name, status) for gen, name, status, _, _, _ in LAST_REPORT if gen in gens and status != 'ok']
 
 
 def write_all(outdir=None):
